@@ -30,6 +30,7 @@ import Pandora.Proofs.C06Borrow
 import Pandora.Proofs.C06Start
 import Pandora.Proofs.C06PoolRun
 import Pandora.Proofs.C06DropCount
+import Pandora.Proofs.C06ResChan
 
 namespace Pandora.Props.C06
 open Pandora.Model.Phout Pandora.Proofs.C06
@@ -1297,6 +1298,60 @@ theorem C06_dropcount_cas_retry_once_counterexample :
 
 end DropCount
 
+section ResChan
+open Pandora.Model.C06ResChan Pandora.Proofs.C06ResChan
+
+/-- **no instance result is lost in the pool's `runRes` channel, whatever its capacity and however many instances
+finish before the await loop gets to receive** (sends block: `Bridge.AggQ.engineStartInstances_eq` pins the plain
+`runRes <- …`): for every capacity and every interleaving of sends and receives, received + buffered + waiting =
+sent, nothing is dropped, and while a result is outstanding the await loop's receive case is enabled. This is the
+reading behind the pool model's `awaitedInstances < finishedCount`; tied behaviourally by the harness's `slowlog=`
+cases (100–200 instances finished while the await loop is held up). -/
+theorem C06_reschan_no_result_lost (cap : Nat) (trace : List Ev) :
+    let st := run true { cap := cap } trace
+    st.received + st.buffered + st.blocked = st.sent ∧ st.lost = 0 ∧ st.buffered ≤ cap ∧
+    (st.received < st.sent → canRecv st = true) := by
+  intro st
+  have inv : CInv st := cinv_run true trace (cinv_init cap)
+  have hl : st.lost = 0 := lost_run_blocking trace { cap := cap }
+  have hcap : st.cap = cap := by
+    have : ∀ (tr : List Ev) (s : St), (run true s tr).cap = s.cap := by
+      intro tr; induction tr with
+      | nil => intro s; rfl
+      | cons e es ih => intro s; simp only [run]; rw [ih, cap_step]
+    exact this trace { cap := cap }
+  obtain ⟨h1, h2, _⟩ := inv
+  refine ⟨by omega, hl, by omega, ?_⟩
+  intro hlt
+  simp only [canRecv, Bool.or_eq_true, decide_eq_true_eq]
+  omega
+
+/-- non-vacuity: capacity 2, four instances finish before the loop receives anything — two wait, all four arrive -/
+example :
+    let st := run true { cap := 2 } [.send, .send, .send, .send, .recv, .recv, .recv, .recv]
+    st.received = 4 ∧ st.lost = 0 ∧ (run true { cap := 2 } [.send, .send, .send, .send]).blocked = 2 := by decide
+
+/-- a send that gives up when the buffer is full (`select { case runRes <- res: default: }`) does not have the
+property, for ANY capacity: `cap + 1` instances finishing before the await loop receives lose a result — the loop
+then waits for ever for `awaitedInstances ≥ startedInstances` and never issues the aggregator's cancel -/
+theorem C06_reschan_nonblocking_counterexample (cap : Nat) :
+    (run false { cap := cap } (List.replicate (cap + 1) .send)).lost = 1 := by
+  have h := sends_fill false cap { cap := cap } (by simp)
+  have : List.replicate (cap + 1) Ev.send = List.replicate cap Ev.send ++ [Ev.send] := by
+    rw [List.replicate_succ']
+  rw [this]
+  have happ : ∀ (a b : List Ev) (s : St), run false s (a ++ b) = run false (run false s a) b := by
+    intro a; induction a with
+    | nil => intro b s; rfl
+    | cons e es ih => intro b s; exact ih b _
+  rw [happ]
+  simp only [run, step]
+  obtain ⟨hb, hl, hc⟩ := h
+  simp at hb hl hc
+  simp [hb, hl, hc]
+
+end ResChan
+
 section Round4Shape
 open Pandora.Gen.AggQ
 
@@ -1343,6 +1398,13 @@ theorem C06_source_shape_shared_schedule :
     callbackScheduleNext = Bridge.AggQ.callbackScheduleNextExpected ∧
     callbackScheduleLeft = Bridge.AggQ.callbackScheduleLeftExpected :=
   ⟨Bridge.AggQ.newCallbackSchedule_eq, Bridge.AggQ.callbackScheduleNext_eq, Bridge.AggQ.callbackScheduleLeft_eq⟩
+
+/-- the representation the line theorems assume (regenerated: `Sample.fields` is `[10]int` / `[10]int64`): the ten
+values are 64-bit machine integers, so "ALL integer values" of `C06_phout_wellformed` covers everything a setter can
+be given; a narrower element type (int32) wraps durations of 36 min and more and byte counts from 2 GiB on — the
+harness's boundary field values (`math.MaxInt64`, 2^31 …) show that as `fail:value` -/
+theorem C06_sample_fields_64bit :
+    (sampleFieldsElem = "int" ∨ sampleFieldsElem = "int64") ∧ sampleFieldsLen = 10 := Bridge.AggQ.sample_fields_wide
 
 /-- **both result destinations start empty**: phout's file (`NewPhout`, through `Fs.Create` or `Fs.OpenFile` —
 regenerated flags) and the file sink's (`OpenSink`) are opened for writing, created, TRUNCATED, never appended to:
